@@ -129,10 +129,11 @@ func main() {
 	ie := NewExec(prog)
 	ie.unwind = 1 << 30
 	ie.MaxUnwind = 0
+	ie.initPhase = true
 	func() {
 		defer func() {
 			if r := recover(); r != nil {
-				fmt.Fprintf(os.Stderr, "package init failed: %v\n", r)
+				fmt.Fprintf(os.Stderr, "package init failed: %v%s\n", r, ie.stackTrace())
 				if *verbose {
 					debug.PrintStack()
 				}
@@ -200,9 +201,9 @@ func main() {
 					hr.Status = "error"
 					switch x := r.(type) {
 					case unsupported:
-						hr.Error = "unsupported: " + x.msg
+						hr.Error = "unsupported: " + x.msg + e.stackTrace()
 					default:
-						hr.Error = fmt.Sprint(r)
+						hr.Error = fmt.Sprint(r) + e.stackTrace()
 						if *verbose {
 							debug.PrintStack()
 						}
